@@ -142,6 +142,7 @@ def run(m: Model, r: Report, tier: str) -> None:
     # ---------------------------------------------------------------- R8
     wr = m.require_function(f"{HSFZ}.HSFZConnection.write_diag_request_raw")
     tr.ack_timeout_handler(m, r, "R8", wr, "self._read_ack")
+    tr.hsfz_ack_timeout_units(m, r, "R8")
     waits = [n for n in ast.walk(wr.node) if isinstance(n, ast.Call) and ast.unparse(n.func) == "asyncio.wait_for"]
     r.check(len(waits) == 1 and len(waits[0].args) == 2 and ast.unparse(waits[0].args[1]) == "self.ack_timeout" and
             ast.unparse(waits[0].args[0]) == "self._read_ack(data)", "R8", f"{wr.qualname}#ack-args",
